@@ -9,6 +9,7 @@ import (
 	"go/ast"
 	"go/token"
 	"go/types"
+	"os"
 	"regexp"
 	"sort"
 	"strings"
@@ -459,16 +460,95 @@ func r2(w *World, r *Report) {
 	// RigoApp: Commit persists the context it installs; Info loads it
 	cm := needFn(r, "R-2", w, fref{"node", "RigoApp", "Commit"})
 	if cm != nil {
-		put := w.findCall(cm, "recv.metaDB.PutLastBlockContext(recv.nextBlockCtx)")
-		st := w.findStore(cm, "recv.lastBlockCtx", "recv.nextBlockCtx")
-		var app []ssa.CallInstruction
-		for _, c := range w.findCallMatch(cm, mustRe(`^recv\.nextBlockCtx\.SetAppHash\(.*\)$`)) {
-			_, a := callRecvArgs(c.Common())
-			if len(a) == 1 && w.valueIs(a[0], func(s string) bool { return strings.HasPrefix(s, "crypto.DefaultHash([") }) {
-				app = append(app, c)
+		// evaluated on the paths of Commit (helpers, closures and handler tables expanded):
+		// hash the four controllers' hashes, set it as the app hash of the next block's
+		// context, write that context to the meta store, install it as lastBlockCtx
+		want := []string{"recv.govCtrler.Commit()#0", "recv.acctCtrler.Commit()#0", "recv.stakeCtrler.Commit()#0", "recv.vmCtrler.Commit()#0"}
+		ev := func(in ssa.Instruction) string {
+			switch x := in.(type) {
+			case ssa.CallInstruction:
+				cc := x.Common()
+				switch {
+				case w.callIs(cc, fref{"types/crypto", "", "DefaultHash"}) && len(cc.Args) == 1 && strings.HasSuffix(w.FuncPkgPath(in.Parent()), "/node"):
+					var ins []string
+					if sl, isSl := cc.Args[0].(*ssa.Slice); isSl {
+						if a, isA := sl.X.(*ssa.Alloc); isA {
+							if elems, ok := varargElems(a); ok {
+								for _, e := range elems {
+									ins = append(ins, w.canonOnPathFallible(e))
+								}
+							}
+						}
+					}
+					if ins == nil && w.cur != nil && w.cur.st != nil {
+						if base := localArrayBase(cc.Args[0]); base != nil {
+							for i := int64(0); i < 16; i++ {
+								mv, ok := w.cur.st.mem[memKey{base, i}]
+								if !ok {
+									break
+								}
+								ins = append(ins, mv.s)
+							}
+						}
+					}
+					return "HASH\x01" + strings.Join(ins, ",")
+				case callName(cc) == "SetAppHash":
+					rcv, a := callRecvArgs(cc)
+					if len(a) == 1 && w.Canon(rcv) == "recv.nextBlockCtx" {
+						isHash := w.valueIs(a[0], func(s string) bool { return strings.HasPrefix(s, "crypto.DefaultHash(") })
+						return fmt.Sprintf("APP\x01%v", isHash)
+					}
+				case callName(cc) == "PutLastBlockContext":
+					_, a := callRecvArgs(cc)
+					if len(a) == 1 {
+						return "PUT\x01" + w.Canon(a[0])
+					}
+				}
+			case *ssa.Store:
+				if _, isF := x.Addr.(*ssa.FieldAddr); isF && w.Canon(x.Addr) == "recv.lastBlockCtx" {
+					return "INSTALL\x01" + w.Canon(x.Val)
+				}
+			}
+			return ""
+		}
+		savedBM := w.branchMarkers
+		w.branchMarkers = false
+		w.psEvents = true
+		paths, complete := w.enumPaths(cm, w.deadErrEval, ev, 6000)
+		w.psEvents = false
+		w.branchMarkers = savedBM
+		ok := complete
+		nOK := 0
+		why := ""
+		for _, p := range paths {
+			if p.Term != "ok" && p.Term != "unknown" {
+				continue
+			}
+			nOK++
+			pos := map[string]int{}
+			val := map[string]string{}
+			cnt := map[string]int{}
+			for i, e := range p.Events {
+				parts := strings.SplitN(e, "\x01", 2)
+				pos[parts[0]] = i
+				val[parts[0]] = parts[1]
+				cnt[parts[0]]++
+			}
+			switch {
+			case cnt["HASH"] != 1 || val["HASH"] != strings.Join(want, ","):
+				ok, why = false, "the app hash is not the hash of the four controllers' hashes in the order gov, account, stake, vm: "+val["HASH"]
+			case cnt["APP"] != 1 || val["APP"] != "true" || pos["APP"] < pos["HASH"]:
+				ok, why = false, "the hash is not set as the app hash of the next block's context"
+			case cnt["PUT"] != 1 || val["PUT"] != "recv.nextBlockCtx" || pos["PUT"] < pos["APP"]:
+				ok, why = false, "the context written to the meta store is not the next block's context with its app hash set"
+			case cnt["INSTALL"] < 1 || val["INSTALL"] != "recv.nextBlockCtx":
+				ok, why = false, "the context installed as lastBlockCtx is not the one written"
 			}
 		}
-		r.Check(put != nil && st != nil && len(app) == 1 && instrDominates(app[0], put), "R-2", "RigoApp.Commit:persists-installed-context", "the block context that becomes lastBlockCtx (with its app hash) is the one written to the meta store", "Commit does not persist exactly the block context it installs as lastBlockCtx (with the app hash set before)", fnSite(w, cm))
+		if nOK == 0 {
+			ok, why = false, "Commit has no successful path"
+		}
+		r.Check(ok, "R-2", "RigoApp.Commit:persists-installed-context", "the block context that becomes lastBlockCtx (with its app hash = hash of the four controllers' hashes) is the one written to the meta store", "Commit does not persist exactly the block context it installs as lastBlockCtx (with the app hash set before): "+why, fnSite(w, cm))
 	}
 	inf := needFn(r, "R-2", w, fref{"node", "RigoApp", "Info"})
 	if inf != nil {
@@ -676,91 +756,141 @@ func (w *World) codecSymmetric(r *Report, rule, pkgRel, typ, enc, dec string, fi
 type durableStep struct {
 	Name string
 	In   ssa.Instruction
+	Site string
 }
 
-// durableSteps lists, in execution order, the durable writes performed by fn
-// (one level of module callees expanded in call order). Only straight-line
-// order is used: each listed call must dominate the next one.
-func (w *World) durableSteps(fn *ssa.Function, depth int) []durableStep {
-	var out []durableStep
-	if fn == nil || fn.Blocks == nil || depth > 4 {
-		return nil
-	}
-	// a step is named by the store it writes (owner type + field path), not by the
-	// function the write happens to sit in
-	owner := "?"
-	if fn.Signature.Recv() != nil {
-		if n, ok := deref(fn.Signature.Recv().Type()).(*types.Named); ok {
-			owner = n.Obj().Name()
+// durableStepsOnPaths lists, in execution order, the durable writes of a commit:
+// the function is evaluated on its paths with every callee that (transitively)
+// writes durably expanded in line — helpers, closures, handlers taken from a
+// literal table in a loop, methods of the interface value a helper was handed.
+// A step is named by the store it writes (owner type + field path), computed in
+// the frame the write sits in, so the names do not depend on how the commit is
+// arranged. All successful paths must list the same steps in the same order
+// (a conditional write makes the shorter list a subsequence of the longer).
+func (w *World) durableStepsOnPaths(fn *ssa.Function) ([]durableStep, string) {
+	ownerOf := func(f *ssa.Function) string {
+		for f != nil && f.Parent() != nil {
+			f = f.Parent()
 		}
-	} else if len(fn.Params) > 0 {
-		if n, ok := deref(fn.Params[0].Type()).(*types.Named); ok {
-			owner = n.Obj().Name()
+		if f == nil {
+			return "?"
 		}
+		if f.Signature.Recv() != nil {
+			if n, ok := deref(f.Signature.Recv().Type()).(*types.Named); ok {
+				return n.Obj().Name()
+			}
+		} else if len(f.Params) > 0 {
+			if n, ok := deref(f.Params[0].Type()).(*types.Named); ok {
+				return n.Obj().Name()
+			}
+		}
+		return "?"
 	}
-	ident := func(s string) string {
+	ownFrame := func(f func() string) string {
+		saved := w.inlineEnv
+		w.inlineEnv = nil
+		defer func() { w.inlineEnv = saved }()
+		return f()
+	}
+	ident := func(in ssa.Instruction, rcv ssa.Value) string {
+		s := ownFrame(func() string { return w.Canon(rcv) })
+		owner := ownerOf(in.Parent())
 		if strings.HasPrefix(s, "recv.") {
 			return owner + "." + strings.TrimPrefix(s, "recv.")
 		}
-		if strings.HasPrefix(s, "p0.") && fn.Signature.Recv() == nil {
+		f := in.Parent()
+		for f != nil && f.Parent() != nil {
+			f = f.Parent()
+		}
+		if strings.HasPrefix(s, "p0.") && f != nil && f.Signature.Recv() == nil {
 			return owner + "." + strings.TrimPrefix(s, "p0.")
 		}
 		return s
 	}
-	// instructions in dominance order: sort calls by (dominates)
-	var calls []ssa.CallInstruction
-	for _, c := range CallsIn(fn) {
-		if _, isDefer := c.(*ssa.Defer); isDefer {
-			continue
+	ev := func(in ssa.Instruction) string {
+		c, ok := in.(ssa.CallInstruction)
+		if !ok {
+			return ""
 		}
-		calls = append(calls, c)
-	}
-	sort.SliceStable(calls, func(i, j int) bool { return instrDominates(calls[i], calls[j]) })
-	for _, c := range calls {
+		if _, isDefer := c.(*ssa.Defer); isDefer {
+			return ""
+		}
 		cc := c.Common()
 		if api, ok := w.durableWrite(cc); ok {
 			rcv, _ := callRecvArgs(cc)
-			out = append(out, durableStep{ident(w.Canon(rcv)) + "." + api[strings.Index(api, ".")+1:], c})
-			continue
+			if cc.IsInvoke() {
+				rcv = cc.Value
+			}
+			return "D\x01" + ident(in, rcv) + "." + api[strings.Index(api, ".")+1:] + "\x01" + site(w, c)
+		}
+		if inLedgerPkg(w, in.Parent()) {
+			return ""
 		}
 		if arms := w.ledgerArms(c); arms != nil {
 			for _, a := range arms {
 				if a.Method == "Commit" {
-					if k, desc := w.ledgerKind(a.Recv); k == "live" {
-						out = append(out, durableStep{ident(desc) + ".Commit", c})
+					if k, _ := ownFrameKind(w, a.Recv); k == "live" {
+						return "D\x01" + ident(in, ledgerRoot(a.Recv)) + ".Commit\x01" + site(w, c)
 					}
 				}
 			}
-			continue
+			return ""
 		}
 		if rn := recvNamed(cc); rn != nil && rn.Obj().Name() == "MetaDB" && strings.HasPrefix(callName(cc), "Put") {
 			rcv, _ := callRecvArgs(cc)
-			out = append(out, durableStep{ident(w.Canon(rcv)) + "." + callName(cc), c})
+			return "D\x01" + ident(in, rcv) + "." + callName(cc) + "\x01" + site(w, c)
+		}
+		return ""
+	}
+	saved := w.branchMarkers
+	w.branchMarkers = false
+	w.enumDepth, w.psEvents, w.expandAll = 6, true, true
+	paths, complete := w.enumPaths(fn, w.deadErrEval, ev, 6000)
+	w.enumDepth, w.psEvents, w.expandAll = 0, false, false
+	w.branchMarkers = saved
+	if !complete {
+		return nil, "path enumeration of the commit did not complete"
+	}
+	var best []string
+	var all [][]string
+	for _, p := range paths {
+		if p.Term != "ok" && p.Term != "unknown" {
 			continue
 		}
-		// expand module callees that (transitively) write durably: controller commits and helpers
-		for _, cal := range w.Callees(c) {
-			if w.InModule(cal) && !inLedgerPkg(w, cal) && cal.Blocks != nil && cal != fn {
-				if o := cal.Origin(); o != nil {
-					cal = o
-				}
-				for _, st := range w.durableSteps(cal, depth+1) {
-					// the step is attributed to the call site in the outermost function
-					out = append(out, durableStep{st.Name, pickSite(depth, c, st.In)})
-				}
-			}
+		all = append(all, p.Events)
+		if len(p.Events) > len(best) {
+			best = p.Events
 		}
 	}
-	return out
+	if len(all) == 0 {
+		return nil, "the commit has no successful path"
+	}
+	name := func(e string) string { return strings.SplitN(e, "\x01", 3)[1] }
+	for _, evs := range all {
+		j := 0
+		for _, e := range evs {
+			for j < len(best) && name(best[j]) != name(e) {
+				j++
+			}
+			if j == len(best) {
+				return nil, "the successful paths of the commit do not write the stores in one order"
+			}
+			j++
+		}
+	}
+	var out []durableStep
+	for _, e := range best {
+		parts := strings.SplitN(e, "\x01", 3)
+		out = append(out, durableStep{Name: parts[1], Site: parts[2]})
+	}
+	return out, ""
 }
 
-// pickSite: in the outermost function the step is located at the call through
-// which it is reached (so dominance against other steps of that function works).
-func pickSite(depth int, outer ssa.CallInstruction, inner ssa.Instruction) ssa.Instruction {
-	if depth == 0 {
-		return outer
-	}
-	return inner
+func ownFrameKind(w *World, v ssa.Value) (string, string) {
+	saved := w.inlineEnv
+	w.inlineEnv = nil
+	defer func() { w.inlineEnv = saved }()
+	return w.ledgerKind(v)
 }
 
 func checkC08(w *World, r *Report) {
@@ -770,7 +900,11 @@ func checkC08(w *World, r *Report) {
 	if cm == nil {
 		return
 	}
-	steps := w.durableSteps(cm, 0)
+	steps, stepsWhy := w.durableStepsOnPaths(cm)
+	if steps == nil {
+		r.Undecided("K-1", "durable-writes", "the durable writes of RigoApp.Commit cannot be put in order: "+stepsWhy)
+		return
+	}
 	var names []string
 	for _, s := range steps {
 		names = append(names, s.Name)
@@ -802,11 +936,28 @@ func checkC08(w *World, r *Report) {
 				ok = false
 			}
 		}
-		r.Check(ok, "K-1", "commit-point-last", fmt.Sprintf("the last-block record is durable write #%d of %d; only the legacy height record follows", idx+1, len(steps)), "durable writes follow the last-block record: a crash between them leaves Info reporting a height whose stores are incomplete (a silent fork instead of a replay): "+strings.Join(after, ", "), site(w, steps[idx].In))
+		r.Check(ok, "K-1", "commit-point-last", fmt.Sprintf("the last-block record is durable write #%d of %d; only the legacy height record follows", idx+1, len(steps)), "durable writes follow the last-block record: a crash between them leaves Info reporting a height whose stores are incomplete (a silent fork instead of a replay): "+strings.Join(after, ", "), steps[idx].Site)
 		// all four controller commits dominate it
-		for _, ct := range []string{"recv.govCtrler.Commit()", "recv.acctCtrler.Commit()", "recv.stakeCtrler.Commit()", "recv.vmCtrler.Commit()"} {
-			c := w.findCall(cm, ct)
-			r.Check(c != nil && instrDominates(c, steps[idx].In), "K-1", "commit-point-after:"+ct, "controller commit precedes the last-block record", ct+" does not precede the last-block record", site(w, steps[idx].In))
+		// (the stores of each controller are written before it, in the order gov, account, stake, vm)
+		first := map[string]int{}
+		last := map[string]int{}
+		for i, st := range steps[:idx] {
+			o := st.Name[:strings.Index(st.Name+".", ".")]
+			if _, seen := first[o]; !seen {
+				first[o] = i
+			}
+			last[o] = i
+		}
+		order := []struct{ ct, owner string }{{"recv.govCtrler.Commit()", "GovCtrler"}, {"recv.acctCtrler.Commit()", "AcctCtrler"}, {"recv.stakeCtrler.Commit()", "StakeCtrler"}, {"recv.vmCtrler.Commit()", "EVMCtrler"}}
+		for k, oc := range order {
+			_, has := first[oc.owner]
+			ok := has
+			if ok && k > 0 {
+				if _, hp := last[order[k-1].owner]; hp && last[order[k-1].owner] > first[oc.owner] {
+					ok = false
+				}
+			}
+			r.Check(ok, "K-1", "commit-point-after:"+oc.ct, "the controller's stores are written before the last-block record, after those of the controller before it", oc.ct+" does not precede the last-block record (or the controllers' stores are written in another order)", steps[idx].Site)
 		}
 	}
 	// K-2 detection
@@ -836,8 +987,16 @@ func checkC08(w *World, r *Report) {
 			fe := w.newFactEval(nil, f)
 			saved := w.branchMarkers
 			w.branchMarkers = false
+			w.expandPanics, w.psEvents = true, true
 			paths, complete := w.enumPaths(cm, fe.eval, cpEvent, 4000)
+			w.expandPanics, w.psEvents = false, false
 			w.branchMarkers = saved
+			if os.Getenv("RIGOCHECK_DEBUG") == "k2" {
+				fmt.Println("DBG k2", ctrlers[a], ctrlers[b], "complete", complete, "used", len(fe.used), "paths", len(paths))
+				for _, p := range paths {
+					fmt.Println("   ", p.Term, p.Events)
+				}
+			}
 			reachesCP := !complete || len(fe.used) == 0
 			for _, p := range paths {
 				for _, e := range p.Events {
@@ -959,10 +1118,10 @@ func checkC08(w *World, r *Report) {
 			key := "gap:" + steps[i].Name + "->" + steps[i+1].Name
 			if strings.HasSuffix(steps[i].Name, ".PutLastBlockContext") {
 				// after the commit point the block is committed; the legacy record is not read when the context exists
-				r.OK("K-3", key, "after the last-block record the block counts as committed; the legacy height record is only read when no context record exists", site(w, steps[i].In))
+				r.OK("K-3", key, "after the last-block record the block counts as committed; the legacy height record is only read when no context record exists", steps[i].Site)
 				continue
 			}
-			r.Violate("K-3", key, "a crash between these two durable writes leaves the first store one version ahead of the meta record and nothing on the start-up path (NewRigoApp, Info) rolls it back or detects it: replay of the interrupted block stops in the version-equality panic / height check", nil, site(w, steps[i].In), site(w, steps[i+1].In))
+			r.Violate("K-3", key, "a crash between these two durable writes leaves the first store one version ahead of the meta record and nothing on the start-up path (NewRigoApp, Info) rolls it back or detects it: replay of the interrupted block stops in the version-equality panic / height check", nil, steps[i].Site, steps[i+1].Site)
 		}
 	}
 	r.Floor("K-1", 5, "commit point")
@@ -1494,11 +1653,87 @@ func u3(w *World, r *Report) {
 				ok = true
 			}
 		}
-		sc := w.findCall(ae, "recv.stakeCtrler.EndBlock(recv.nextBlockCtx)")
-		r.Check(ok && sc != nil, "U-3", "RigoApp.EndBlock:returns-diff", "ResponseEndBlock carries the block context's validator updates", "RigoApp.EndBlock does not return the updates computed by the stake controller", fnSite(w, ae))
+		sc := w.endBlockCalls()["recv.stakeCtrler"] == 1
+		r.Check(ok && sc, "U-3", "RigoApp.EndBlock:returns-diff", "ResponseEndBlock carries the block context's validator updates", "RigoApp.EndBlock does not return the updates computed by the stake controller", fnSite(w, ae))
 	}
 	sv := needFn(r, "U-3", w, fref{pkgCT, "BlockContext", "SetValUpdates"})
 	if sv != nil {
 		r.Check(w.findStore(sv, "recv.ValUpdates", "p0") != nil, "U-3", "SetValUpdates", "stores its argument", "SetValUpdates does not store its argument", fnSite(w, sv))
 	}
+}
+
+// endBlockCalls: on every successful path of RigoApp.EndBlock, how often each
+// controller's EndBlock runs on the executing block's context (the calls may be
+// written out or made in a loop over a literal table of handlers). Returns, per
+// controller field ("recv.stakeCtrler"), the number of such calls if all paths
+// agree, -1 otherwise.
+func (w *World) endBlockCalls() map[string]int {
+	if w.endBlockMemo != nil {
+		return w.endBlockMemo
+	}
+	out := map[string]int{}
+	w.endBlockMemo = out
+	ae := w.Method("node", "RigoApp", "EndBlock")
+	if ae == nil {
+		return out
+	}
+	ev := func(in ssa.Instruction) string {
+		c, ok := in.(ssa.CallInstruction)
+		if !ok || callName(c.Common()) != "EndBlock" {
+			return ""
+		}
+		if _, isDefer := c.(*ssa.Defer); isDefer {
+			return ""
+		}
+		rcv, args := callRecvArgs(c.Common())
+		if c.Common().IsInvoke() {
+			rcv, args = c.Common().Value, c.Common().Args
+		}
+		if rcv == nil || len(args) != 1 {
+			return ""
+		}
+		return "EB\x01" + w.Canon(rcv) + "\x01" + w.Canon(args[0])
+	}
+	saved := w.branchMarkers
+	w.branchMarkers = false
+	w.psEvents = true
+	paths, complete := w.enumPaths(ae, w.deadErrEval, ev, 4000)
+	w.psEvents = false
+	w.branchMarkers = saved
+	if !complete {
+		return out
+	}
+	first := true
+	for _, p := range paths {
+		if p.Term == "panic" || p.Term == "loop" || p.Term == "err" {
+			continue
+		}
+		cnt := map[string]int{}
+		for _, e := range p.Events {
+			parts := strings.Split(e, "\x01")
+			if len(parts) == 3 && parts[2] == "recv.nextBlockCtx" {
+				cnt[parts[1]]++
+			} else if len(parts) == 3 {
+				cnt[parts[1]] = -100
+			}
+		}
+		if first {
+			for k, v := range cnt {
+				out[k] = v
+			}
+			first = false
+			continue
+		}
+		for k := range out {
+			if cnt[k] != out[k] {
+				out[k] = -1
+			}
+		}
+		for k := range cnt {
+			if _, ok := out[k]; !ok {
+				out[k] = -1
+			}
+		}
+	}
+	return out
 }
